@@ -6,9 +6,14 @@
    the model disagrees.
    Histories are lists of ThrottleConc.xitem: the atomic items of Model/Throttle.v (XI i) and production attempts
    with submission iterations inside (XProduceI q ne); for the latter the harness also reports, per interleaved
-   iteration in execution order, its result class and the blob heights of its DA calls. *)
+   iteration in execution order, its result class and the blob heights of its DA calls.
+   The model that is run is the NODE of Model/ThrottleLoop.v (ThrottleLoop.nrun: the history served by the two
+   long-lived loop goroutines of the process; = ThrottleConc.xrun by ThrottleLoopProofs.c08l_refines).  Cases in
+   which the harness let the SAME two goroutines (HeaderSubmissionLoop / DataSubmissionLoop started once per
+   process, as node/full.go does) serve every tick also report, per item, whether each of the two loop functions
+   is still running after it (tc_live); a tick nobody served has result class 5. *)
 From Coq Require Import NArith List Bool.
-From Verif Require Import Model.Throttle Model.ThrottleConc.
+From Verif Require Import Model.Throttle Model.ThrottleConc Model.ThrottleLoop.
 Import ListNotations.
 Open Scope N_scope.
 
@@ -36,8 +41,12 @@ Record tcase := {
   tc_outs : list xobs;         (* observed on the real code, per item *)
   tc_chain : list bool;        (* observed: has transactions, from the initial height on *)
   tc_hacc : list N;            (* header heights the DA double accepted, in order *)
-  tc_dacc : list N             (* data heights the DA double accepted, in order *)
+  tc_dacc : list N;            (* data heights the DA double accepted, in order *)
+  tc_live : list (bool * bool) (* long-lived loops only ([] = not observed): per item, (HeaderSubmissionLoop,
+                                  DataSubmissionLoop) of the running process has not returned, after the item *)
 }.
+
+Definition live_eqb (a b : bool * bool) : bool := Bool.eqb (fst a) (fst b) && Bool.eqb (snd a) (snd b).
 
 (* index (from 1) of the first differing item, 0 = none *)
 Fixpoint first_diff (i : N) (a b : list xobs) : N :=
@@ -47,14 +56,18 @@ Fixpoint first_diff (i : N) (a b : list xobs) : N :=
   | _, _ => i
   end.
 
-(* 1000+i = item i (from 1) differs; 2 = block emptiness; 3 = accepted headers; 4 = accepted data *)
+(* 1000+i = item i (from 1) differs; 2 = block emptiness; 3 = accepted headers; 4 = accepted data;
+   5 = a loop goroutine's being there differs *)
 Definition check_case (c : tcase) : list N :=
   let cf := mk_cfg (tc_init c) (tc_limit c) in
-  let '(s, outs) := xrun cf (tc_hist c) in
+  let '(n, nouts) := nrun cf (tc_hist c) in
+  let s := n_s n in
+  let outs := map fst nouts in
   (match first_diff 1 outs (tc_outs c) with 0 => [] | i => [1000 + i] end) ++
   (if list_eqb Bool.eqb (map (nonempty s) (committed cf s)) (tc_chain c) then [] else [2]) ++
   (if list_eqb N.eqb (t_dah s) (tc_hacc c) then [] else [3]) ++
-  (if list_eqb N.eqb (t_dad s) (tc_dacc c) then [] else [4]).
+  (if list_eqb N.eqb (t_dad s) (tc_dacc c) then [] else [4]) ++
+  (match tc_live c with [] => [] | l => if list_eqb live_eqb (map snd nouts) l then [] else [5] end).
 
 Fixpoint mismatches_from (i : N) (cs : list tcase) : list (N * list N) :=
   match cs with
